@@ -138,14 +138,14 @@ func init() {
 	implOps["htmlesc"] = escOp1(func(s string) []byte { return soyhtml.VerifHTMLEscape(s) })
 	implOps["gohtmlesc"] = escOp1(func(s string) []byte { return []byte(template.HTMLEscapeString(s)) })
 	implOps["jsesc"] = escOp1(func(s string) []byte { return []byte(template.JSEscapeString(s)) })
-	implOps["jsesc2"] = escOp1(func(s string) []byte { return []byte(jsEscapeString(s)) })
+	implOps["jsesc2"] = escOp1(func(s string) []byte { return []byte(soyhtml.VerifJSEscape(s)) })
 	// jsrt2: the proposed escaper followed by the oracle's independent evaluator
 	implOps["jsrt2"] = func(f []string) string {
 		s, ok := unhx(f[0])
 		if !ok || len(f) != 1 {
 			return "BADREQ"
 		}
-		dec, why := escJSDecode([]byte(jsEscapeString(string(s))))
+		dec, why := escJSDecode([]byte(soyhtml.VerifJSEscape(string(s))))
 		if why != "" {
 			return "ERR"
 		}
@@ -704,8 +704,9 @@ func escOracle(c *Case, impl string) *Viol {
 			return escViol("queryesc", "queryesc: output does not percent-decode to the value")
 		}
 	case "jsesc":
-		v, _ := unhx(f[1])
-		return escJSOracle("jsesc", v, out, isOK)
+		// text/template.JSEscape itself: soy no longer calls it (internal/jsescape since c70f1e4); the op stays as
+		// the tie of the baseline model that jsEscapeFixed is compared with, without a property oracle.
+		return nil
 	case "jsesc2":
 		// the proposed escaper: safe and evaluating to the value on EVERY valid string, equal to
 		// text/template.JSEscape wherever that one is right
